@@ -1,5 +1,6 @@
 """C07 — force-constant symmetrisers."""
 from contracts import c_symm as S
+from contracts import py_fc as PF
 
 
 def build(run):
@@ -7,5 +8,6 @@ def build(run):
     run.verify_c([ipf, trf])
     run.verify_c([S.perm_trans_full_contract(ipf, trf)], registry={"set_index_permutation_symmetry_fc": ipf, "set_translational_symmetry_fc": trf})
     run.verify_c([S.translational_compact_contract()])
+    PF.nsym_list_and_s2pp(run)
     known = run.finding_status("E2") == "known"
     run.verify_c([S.compact_index_permutation_contract(known, True), S.compact_index_permutation_contract(known, False)])
